@@ -1031,6 +1031,10 @@ class Manager:
             try:
                 self._flushing_thread = current_thread()
                 for task in self._tasks.copy():
+                    if task not in self._tasks:
+                        # finished (or handed over) by a nested tick() of an
+                        # earlier step of this pass
+                        continue
                     if getattr(task[1], 'gi_running', False):
                         # tick() called from inside a step of this very
                         # generator: it goes on when that step returns
